@@ -111,6 +111,13 @@ SIBLINGS = {
     'C01-r8-2': ['C01', 'C02'],   # the 26th generated name repeats the first: non-injective renaming (C02)
     'C11-r8-1': ['C11', 'C14'],   # a missing file behind a nested require() no longer fails the build (nothing fails, so C11 has nothing to judge): C14's last sentence
     'C19-r7-3': ['C19', 'C20'],
+    'C01-r12-2': ['C01', 'C02'],   # names that differ only in letter case get one short name: non-injective renaming (C02)
+    'C03-r12-1': ['C03', 'C07'],   # a `--` line inside an open block comment / long string is lexed as a comment when the text arrives line by line: tokenisation (C07); C03 now has such carts too
+    'C06-r12-1': ['C06', 'C05'],   # overlapping back-references decoded one repetition short: picotool's decoder against the reference decoder is C05's
+    'C09-r12-1': ['C09', 'C08'],   # `if (...) stmt` is rejected: a valid program does not load (C08); C09 itself says INCONCLUSIVE
+    'C11-r12-1': ['C11', 'C04', 'C05'],   # a stream ending 1..8 bytes past the code area is no longer refused: nothing fails, the cart written is damaged (C04 / C05)
+    'C11-r12-3': ['C11', 'C04'],   # a destination picture without alpha channel no longer makes the write fail, the picture written does not hold the cart: C04
+    'C19-r12-2': ['C19', 'C20'],   # lines spliced from an included cart are decoded a second time: the include splice is C20's
     'C09-r11-1': ['C09', 'C07', 'C08'],   # a numeral directly followed by a keyword (`10do`, `1then`) is rejected by the lexer: a valid program does not load (C07/C08); C09 itself says INCONCLUSIVE
     'C01-r11-1': ['C01', 'C19'],   # code behind a header block comment on its line disappears from luamin output: code/comment confusion at the header is C19's oracle
     'C19-r11-1': ['C19', 'C03', 'C15'],   # the .p8 reader cuts lines at form feed / vertical tab: the cart does not come back from its file (C03) / bytes 11, 12 in context (C15)
@@ -137,6 +144,8 @@ NOT_A_VIOLATION = {
                 '(PICO-8\'s line-wise expansion of `a += b`) a compound assignment ends with its line, so such a program is outside the domain',
     'C20-r7-1': 'only affects directive lines with other text after the name (`#include x.lua // note`); the statement speaks of `#include NAME` '
                 'lines and does not say what trailing text means',
+    'C09-r12-3': 'same change as C08-r7-2: only a compound assignment whose right-hand side continues on the next line is affected, which is '
+                 'outside the dialect of Appendix A',
     'C09-r11-2': 'only affects a short-form if that is followed on its line by the `end` of an enclosing one-line block (`for ... do if (c) x() end`); '
                  'in the dialect of Appendix A a short-if runs to the end of its line, so such a line is not a program of the dialect (PICO-8 '
                  'itself would give the `end` to the short-if)',
